@@ -100,6 +100,28 @@ def OpArgsWP : Op → Prop
   | .map (.updateArgs kvs) => ∀ p ∈ kvs, ArgWP p.2
   | _ => True
 
+/-! ### Element arguments that a call places -/
+
+def argElems : Arg → List Node
+  | .plain _ => []
+  | .elem e => [e]
+
+/-- the Element arguments a list-protocol call puts into the sequence (searching calls —
+    `remove`, `index`, `count`, `in` — only read theirs) -/
+def placedSeq : SeqOp → List Node
+  | .append a | .insert _ a | .setitem _ a => argElems a
+  | .extend as | .iadd as | .setslice _ as => as.flatMap argElems
+  | _ => []
+
+def placedMap : MapOp → List Node
+  | .setitem _ a => argElems a
+  | .updateArgs kvs => kvs.flatMap (fun p => argElems p.2)
+  | _ => []
+
+def placedArgs : Op → List Node
+  | .seq o => placedSeq o
+  | .map o => placedMap o
+
 /-- **C08 for histories** (stored-pointer clause): from any well-parented tree, after any sequence
     of list-protocol and dict-protocol calls applied to any of its elements — with plain values or with
     internally well-parented Element arguments — every node's stored parent chain is exactly its
